@@ -2,7 +2,7 @@
    temperature range is ordered and non-negative. Statements only; proofs are
    in Proofs/ExtremaProofs.v and Proofs/TempRange.v. *)
 From QV.Model Require Import Base Matrix Extrema.
-From QV.Proofs Require Import BaseProofs ExtremaProofs TempRange.
+From QV.Proofs Require Import BaseProofs ExtremaProofs TempRangeQ TempRange.
 From Coq Require Import Reals.
 Open Scope Q_scope.
 
